@@ -561,6 +561,55 @@ func c12ServerFraming(w *core.W, j int) {
 			w.Violation("C12/server-write-framing", fmt.Sprintf("server wrote %d octets, reply frame is %d", len(all), 2+len(reply)), nil)
 		}
 	}
+	// a request whose connection ends before the announced length has arrived - in particular where what
+	// has arrived is a well-formed shorter message (after the header, the question, each record): no
+	// handler is run for a request nobody sent
+	{
+		seq++
+		m := sizedMsg(size, uint16(seq), byte(j))
+		want, _ := m.Pack()
+		cuts := map[int]bool{0: true, 1: true, 2: true, 3: true, 13: true, 14: true, 1 + len(want): true, len(want) / 2: true}
+		for _, o := range msgBoundaries(want) {
+			cuts[2+o] = true
+		}
+		total := func() int {
+			log.mu.Lock()
+			defer log.mu.Unlock()
+			n := 0
+			for _, c := range log.handled {
+				n += c
+			}
+			return n
+		}
+		for cut := range cuts {
+			if cut >= 2+len(want) || fails >= 2 {
+				continue
+			}
+			cl, err := ln.Dial()
+			if err != nil {
+				break
+			}
+			svs := ln.ServerConns()
+			sv := svs[len(svs)-1]
+			before := total()
+			cl.Write(frame(want)[:cut])
+			cl.Close()
+			w.Eval(1)
+			w.Count("server_short_streams", 1)
+			deadline := time.Now().Add(c12Watch)
+			for sv.Closes() == 0 && time.Now().Before(deadline) {
+				time.Sleep(100 * time.Microsecond)
+			}
+			if sv.Closes() == 0 {
+				w.Violation("C12/server-keeps-short-stream-open", fmt.Sprintf("the client closed after %d of %d octets; the server did not close its end", cut, 2+len(want)), map[string]any{"size": size, "cut": cut})
+				fails++
+				continue
+			}
+			if after := total(); after != before {
+				w.Violation("C12/server-short-stream-handled", fmt.Sprintf("the connection ended after %d of %d octets (the frame announces %d); a handler was run for the part that had arrived", cut, 2+len(want), len(want)), map[string]any{"size": size, "cut": cut, "request": hx(want)})
+			}
+		}
+	}
 	w.Count("hook_hits_readTCP", ctl.Hits()["readTCP.deadlineSet"])
 }
 
